@@ -317,76 +317,114 @@ func linearRest(t *sx, k string) (string, bool) {
 // normalizeQuant rewrites a quantifier body so that element reads `(select H (pr A (+ off k)))` become
 // `(select H (pr A k))` by the change of variable k := k - off: triggers then contain the bound variable
 // bare, and match every ground read of that array whatever the arithmetic shape of its index.
-func normalizeQuant(body string, bound []string) string {
+// For a single binder that indexes several arrays with different offsets, one (equivalent) variant per
+// offset is returned, so that a ground read of any of those arrays instantiates the fact.
+func normalizeQuant(body string, bound []string) []string {
+	if len(bound) == 1 {
+		k := bound[0]
+		rests := candidateRests(body, bound, k)
+		if len(rests) > 1 {
+			var out []string
+			for i, r := range rests {
+				if i >= 3 {
+					break
+				}
+				out = append(out, rewriteVar(body, k, r))
+			}
+			return out
+		}
+	}
+	for _, k := range bound {
+		rests := candidateRests(body, bound, k)
+		if len(rests) == 0 {
+			continue
+		}
+		body = rewriteVar(body, k, rests[0])
+	}
+	return []string{body}
+}
+
+// candidateRests lists the distinct offsets `rest` such that some read `(pr A (k + rest))` occurs in body
+// (empty string "" stands for a bare read `(pr A k)`, listed first when present).
+func candidateRests(body string, bound []string, k string) []string {
 	own := map[string]bool{}
 	for _, b := range bound {
 		own[b] = true
 	}
-	for _, k := range bound {
-		root := parseSx(body)
-		if root == nil {
-			return body
+	root := parseSx(body)
+	if root == nil {
+		return nil
+	}
+	seen := map[string]bool{}
+	var rests []string
+	bare := false
+	var walk func(x *sx)
+	walk = func(x *sx) {
+		if x.atom != "" {
+			return
 		}
-		// already a bare read?
-		bare := false
-		var target *sx
-		var rest string
-		var walk func(x *sx)
-		walk = func(x *sx) {
-			if x.atom != "" || bare {
-				return
-			}
-			if len(x.kids) == 3 && x.kids[0].atom == "pr" {
-				idx := x.kids[2]
-				if idx.atom == k {
-					bare = true
-					return
-				}
-				if target == nil && len(x.kids[1].mentions(own)) == 0 {
-					others := idx.mentions(own)
-					delete(others, k)
-					if len(others) == 0 && !idx.hasForeignBound(own) {
-						if r, ok := linearRest(idx, k); ok {
-							target, rest = idx, r
-						}
+		if len(x.kids) == 3 && x.kids[0].atom == "pr" && len(x.kids[1].mentions(own)) == 0 {
+			idx := x.kids[2]
+			if idx.atom == k {
+				bare = true
+			} else {
+				others := idx.mentions(own)
+				delete(others, k)
+				if len(others) == 0 && !idx.hasForeignBound(own) {
+					if r, ok := linearRest(idx, k); ok && !seen[r] {
+						seen[r] = true
+						rests = append(rests, r)
 					}
 				}
 			}
-			for _, c := range x.kids {
-				walk(c)
-			}
 		}
-		walk(root)
-		if bare || target == nil {
-			continue
+		for _, c := range x.kids {
+			walk(c)
 		}
-		tt := target.render()
-		var rw func(x *sx) *sx
-		rw = func(x *sx) *sx {
-			if x.atom != "" {
-				if x.atom == k {
-					return &sx{kids: []*sx{{atom: "-"}, {atom: k}, parseSx(rest)}}
-				}
-				return x
+	}
+	walk(root)
+	if bare {
+		if len(rests) == 0 {
+			return nil
+		}
+		return append([]string{""}, rests...)
+	}
+	return rests
+}
+
+// rewriteVar performs k := k - rest on body (rest "" = identity).
+func rewriteVar(body, k, rest string) string {
+	if rest == "" {
+		return body
+	}
+	root := parseSx(body)
+	restSx := parseSx(rest)
+	var rw func(x *sx) *sx
+	rw = func(x *sx) *sx {
+		if x.atom != "" {
+			if x.atom == k {
+				return &sx{kids: []*sx{{atom: "-"}, {atom: k}, restSx}}
 			}
-			// binder lists must keep the bare name
-			if len(x.kids) >= 2 && (x.kids[0].atom == "forall" || x.kids[0].atom == "exists") {
-				n := &sx{kids: []*sx{x.kids[0], x.kids[1]}}
-				for _, c := range x.kids[2:] {
-					n.kids = append(n.kids, rw(c))
-				}
-				return n
-			}
-			if x.render() == tt {
-				return &sx{atom: k}
-			}
-			n := &sx{}
-			for _, c := range x.kids {
+			return x
+		}
+		if len(x.kids) >= 2 && (x.kids[0].atom == "forall" || x.kids[0].atom == "exists") {
+			n := &sx{kids: []*sx{x.kids[0], x.kids[1]}}
+			for _, c := range x.kids[2:] {
 				n.kids = append(n.kids, rw(c))
 			}
 			return n
 		}
-		body = rw(root).render()
+		// an index of the form k + rest becomes the bare variable
+		if x.countAtom(k) == 1 {
+			if r, ok := linearRest(x, k); ok && r == rest {
+				return &sx{atom: k}
+			}
+		}
+		n := &sx{}
+		for _, c := range x.kids {
+			n.kids = append(n.kids, rw(c))
+		}
+		return n
 	}
-	return body
+	return rw(root).render()
 }
